@@ -1,6 +1,6 @@
 import Driver.Ops.C01
 import LentilVerif.Model.Energy
-/-! Model driver ops for C05: the FFT path and `normalize_power` (`propagate_dft` cases run C02's op `c02.propagate_dft`, i.e. the model over `Gen.dftWindow`). -/
+/-! Model driver ops for C05: `normalize_power` (`propagate_dft` cases run C02's op `c02.propagate_dft`, `propagate_fft` cases C09's op `c09.propagate_fft`: the models over the generated window / grid kernels). -/
 open Lean Lentil Drv
 namespace Ops.C05
 open Ops.C01
@@ -18,11 +18,6 @@ def realArrToJson (a : Arr Float) : Json :=
 
 def handle (op : String) (j : Json) : Option (R Json) :=
   match op with
-  | "c05.fft" => some do
-      let fs ← (← getArr j "fields").mapM cfFldOfJson
-      let s ← getInts j "fft_shape"
-      let X : Arr CF := fftPath (R := Float) (freeze (embedAll fs.toList s[0]! s[1]!))
-      pure (okJ [("I", realArrToJson (intensity (R := Float) X))])
   | "c05.normalize" => some do
       let a ← cfArrOfJson j
       let p ← getFloat j "power"
